@@ -1,7 +1,7 @@
 (* Witnesses for the known findings of C02: inputs on which two dialects give different answers (under the dialect
    semantics of Model/C01Sql.v: SQLite validated against the linked library, PostgreSQL / MySQL from documentation). *)
 Require Import PonyV.Base.PyBase PonyV.Model.C01Expr PonyV.Model.C01Sql PonyV.Model.C01Translate PonyV.Model.C01Safe
-               PonyV.Model.C01Eqb PonyV.Model.C01Query PonyV.Model.C02Render.
+               PonyV.Model.C01Eqb PonyV.Model.C01Query PonyV.Model.C02Render PonyV.Model.C01Aggr.
 
 Definition ga := mkattr 1 TInt true.
 Definition gb := mkattr 2 TInt true.
@@ -56,3 +56,16 @@ Theorem C02_refuted_postgres_mixed_bool_int_branches :
   value_on DSqlite en e2 = IntV 1 /\ value_on DPostgres en e2 = ErrV.
 Proof. cbv zeta. repeat split; reflexivity. Qed.
 Print Assumptions C02_refuted_postgres_mixed_bool_int_branches.
+
+(* select(sum(p.f) for p in P) / avg: the translator emits SUM("p"."f") on the boolean column; PostgreSQL has no sum(boolean) /
+   avg(boolean) (the statement is rejected), SQLite and MySQL add up the 0 / 1 integers *)
+Theorem C02_refuted_postgres_sum_avg_of_boolean :
+  let g := GAgg FAvg false (EAttr gf) in
+  let r (id : Z) (b : bool) := mkenv (fun i => match i with 0%nat => PInt id | 6%nat => PBool b | _ => PNone end) (fun _ => PNone) in
+  let table := [r 1 true; r 2 false; r 3 true] in
+  aggr_safe DPostgres g = false /\
+  exists qa, tr_aggr DPostgres 0%nat g = Some qa /\ tr_aggr DSqlite 0%nat g = Some qa /\
+    sql_aggr DPostgres qa [] table = ErrV /\
+    sql_aggr DSqlite qa [] table = FracV 2 3 /\ sql_aggr DMysql qa [] table = FracV 2 3.
+Proof. cbv zeta. split; [reflexivity|]. eexists. repeat split; reflexivity. Qed.
+Print Assumptions C02_refuted_postgres_sum_avg_of_boolean.
